@@ -63,7 +63,7 @@ def gen_plan(tape, cfg):
     for _ in range(tape.rint(30, 120, "nops")):
         k = tape.weighted([(10, "build"), (2, "illtyped"), (2, "simplify"), (2, "substitute"), (3, "normalize"),
                            (2, "const"), (2, "eqhash"), (1, "collapse"), (1, "quant_order"), (1, "normalize_clash"),
-                           (1, "builtin_named_sort"), (1, "array_subst")], "op")
+                           (1, "builtin_named_sort"), (1, "array_subst"), (1, "pickle")], "op")
         o = {"op": k, "client": tape.draw(nclients, "client"), "env": tape.draw(nenv, "env"),
              "i": tape.draw(len(pool), "formula")}
         if k == "build":
@@ -577,6 +577,30 @@ def execute(plan, tape):
                     if iv is c0 or iv == c0:
                         raise Violation("C04:real-int-confused", "%s: Real(%s) and Int(%s) are one object" % (where, want[1], want[1]))
                 trace.append(("const", kind))
+            elif k == "pickle":
+                import pickle
+                src = bp.build(t, env)
+                register(ei, src, o["client"], "src", step, where)
+                cp = pickle.loads(pickle.dumps(src))
+                # an unpickled formula belongs to no manager; normalising it into the environment it came
+                # from gives back the original object, into another one an equal, owned, disjoint copy
+                back = mgr.normalize(cp)
+                if back is not src:
+                    raise Violation("C04:normalize:round-trip",
+                                    "%s: normalize(unpickled copy) gave %s, not the original object %s" % (where, _s(back), _s(src)))
+                if len(envs) > 1:
+                    ti = (ei + 1) % len(envs)
+                    other = envs[ti].formula_manager.normalize(cp)
+                    penv.push_env(envs[ti])
+                    try:
+                        register(ti, other, o["client"], "pickle", step, where + " (copy)")
+                    finally:
+                        penv.pop_env()
+                    if keyer[ti].key(other) != keyer[ei].key(src):
+                        raise Violation("C04:normalize:structure", "%s: copy of the unpickled formula %s differs from %s" %
+                                        (where, _s(other), _s(src)))
+                probe("pickle_roundtrip")
+                trace.append(("pickle", ei))
             elif k == "array_subst":
                 import pysmt.typing as T
                 x, y, z = [mgr.Symbol(n, T.INT) for n in ("as_x", "as_y", "as_z")]
